@@ -36,6 +36,75 @@ def run(repo, chk, tier):
     estimator(repo, chk)
     forwarding(repo, chk)
     sampled_sizes(repo, chk)
+    displaced_reads(repo, chk)
+
+
+def displaced_reads(repo, chk):
+    """C04.8 - compute_entropies reads Y at positions computed by arithmetic (row position + size of the stratum).  The sizes it is given are
+    those of the FULL data while Y is the sample when r < 1, so such a position is bounded by nothing: it must be reduced modulo the length of
+    the vector that is read (or clamped into it).  A single conditional subtraction (`np.where(s >= n, s - n, s)`, `if s >= n: s -= n`) keeps
+    the position inside only while s < 2n - true for r = 1, false under sampling."""
+    fn = repo.mod(MI).funcs.get('compute_entropies')
+    if fn is None:
+        return
+    m = fn.module
+    arrays = set(fn.params)
+    defs = {}
+    for n in own_nodes(fn.node):
+        if isinstance(n, ast.Assign) and len(n.targets) == 1 and isinstance(n.targets[0], ast.Name):
+            defs.setdefault(n.targets[0].id, []).append(n.value)
+
+    def resolve(e, depth=0, at=None):
+        if isinstance(e, ast.Name) and e.id in defs and depth < 4:
+            vs = defs[e.id]
+            # the binding in force at the use: the last one written before it (bindings in exclusive branches are rare in a numba kernel)
+            before = [v for v in vs if at is not None and v.lineno < at]
+            if before:
+                vs = [max(before, key=lambda v: v.lineno)]
+            return [r for v in vs for r in resolve(v, depth + 1, v.lineno)]
+        return [e]
+
+    def has_arith(e):
+        for x in ast.walk(e):
+            if isinstance(x, ast.BinOp) and isinstance(x.op, (ast.Add, ast.Sub)) and not (isinstance(x.left, ast.Constant) and isinstance(x.right, ast.Constant)):
+                return True
+            if isinstance(x, ast.Name) and x.id in defs and any(has_arith(v) for v in defs[x.id] if not any(isinstance(y, ast.Name) and y.id == x.id for y in ast.walk(v))):
+                return True
+        return False
+
+    def is_len_of(e, base):
+        return (isinstance(e, ast.Call) and isinstance(e.func, ast.Name) and e.func.id == 'len' and len(e.args) == 1 and ast.unparse(e.args[0]) == base) or \
+               (isinstance(e, ast.Attribute) and e.attr == 'size' and ast.unparse(e.value) == base) or \
+               (isinstance(e, ast.Subscript) and isinstance(e.value, ast.Attribute) and e.value.attr == 'shape' and ast.unparse(e.value.value) == base)
+
+    seen = 0
+    for n in own_nodes(fn.node):
+        if not (isinstance(n, ast.Subscript) and isinstance(n.ctx, ast.Load) and isinstance(n.value, ast.Name) and n.value.id in arrays):
+            continue
+        base = n.value.id
+        for idx in resolve(n.slice, 0, n.lineno):
+            if not has_arith(idx):
+                continue
+            seen += 1
+            d = (m.dotted(idx.func) or '') if isinstance(idx, ast.Call) else ''
+            if isinstance(idx, ast.BinOp) and isinstance(idx.op, ast.Mod):
+                if is_len_of(idx.right, base):
+                    chk.ok('C04.8', 'R8', fn.site(n), f'{base}[{ast.unparse(idx)[:60]}]', 'the computed position is reduced modulo the length of the vector that is read')
+                else:
+                    chk.unsure('C04.8', 'R8', fn.site(n), f'{base}[{ast.unparse(idx)[:60]}]', f'the computed position is reduced modulo {ast.unparse(idx.right)[:40]}; that this is the length of {base} is not decided')
+            elif d in ('numpy.mod', 'numpy.remainder') and len(idx.args) == 2:
+                (chk.ok if is_len_of(idx.args[1], base) else chk.unsure)('C04.8', 'R8', fn.site(n), f'{base}[{ast.unparse(idx)[:60]}]', 'the computed position is reduced modulo the length of the vector that is read')
+            elif d in ('numpy.clip', 'numpy.minimum', 'min'):
+                chk.unsure('C04.8', 'R8', fn.site(n), f'{base}[{ast.unparse(idx)[:60]}]', 'the computed position is clamped, not reduced modulo the length; whether it stays inside the vector is not decided')
+            elif d == 'numpy.where' and len(idx.args) == 3:
+                chk.bad('C04.8', 'R8', fn.site(n), f'{base}[{ast.unparse(idx)[:80]}]', f'the position read from {base} is wrapped by ONE conditional subtraction: with r < 1 the stratum sizes are those of the full data and {base} is the sample, '
+                        f'so row + size can exceed 2 len({base}) and the read leaves the vector (IndexError / foreign memory) - it must be reduced modulo len({base})')
+            elif isinstance(idx, (ast.BinOp, ast.Name)):
+                chk.bad('C04.8', 'R8', fn.site(n), f'{base}[{ast.unparse(idx)[:80]}]', f'the position read from {base} is computed by arithmetic and not reduced modulo len({base}): it leaves the vector')
+            else:
+                chk.unsure('C04.8', 'R8', fn.site(n), f'{base}[{ast.unparse(idx)[:60]}]', 'how the computed position is kept inside the vector is not recognised')
+    if not seen:
+        chk.ok('C04.8', 'R8', fn.site(), 'reads at computed positions in compute_entropies', 'no read of an input vector at a position computed by arithmetic')
 
 
 def sampled_sizes(repo, chk):
